@@ -24,7 +24,7 @@ func b2s(b bool) string {
 
 func TestC01(t *testing.T) {
 	p := &world.Profile{Name: "reaper", DupTaints: true, MinGroups: 1, MaxGroups: 2, Fleet: 0, Auto: 1, Default: 1, MaxInit: 8, SmallGraces: true, Steps: 30, Stale: true,
-		Weights: with(baseWeights(), "advance", 9, "taintExt", 5, "clearNode", 3, "fault", 1, "annotate", 1, "gcNodes", 1, "forceBusy", 3, "schedule", 3, "launch", 3)}
+		Weights: with(baseWeights(), "advance", 9, "taintExt", 5, "clearNode", 3, "fault", 1, "annotate", 1, "gcNodes", 1, "forceBusy", 3, "schedule", 3, "launch", 3, "lateBind", 3, "staleWindow", 2)}
 	col := newCollector(t, "C01", "history of environment actions and scans over the real RunOnce; non-trivial = a scan that removed >=1 node while leaving >=1 tainted node in place, or that saw a tainted node within 1s of a grace boundary; distinct by (age class, empty, removed, restarted, taint value class)")
 	historyCheck(t, &historyOpts{prop: "C01", profile: p, col: col, classify: func(w *world.World, rec *world.ScanRecord) []string {
 		var keys []string
@@ -82,7 +82,7 @@ func TestC01(t *testing.T) {
 
 func TestC02(t *testing.T) {
 	p := &world.Profile{Name: "lock", MinGroups: 1, MaxGroups: 2, Fleet: 1, Auto: 1, MaxInit: 6, SmallGraces: true, Steps: 30,
-		Weights: with(baseWeights(), "advance", 10, "scan", 14, "targetUtil", 10, "cordon", 3, "taintExt", 4, "restart", 1, "fleetPlan", 1, "register", 3, "reconcile", 2, "asgEdit", 2, "drainAndForce", 2)}
+		Weights: with(baseWeights(), "advance", 10, "scan", 14, "targetUtil", 10, "cordon", 3, "taintExt", 4, "restart", 1, "fleetPlan", 1, "register", 3, "reconcile", 2, "asgEdit", 2, "drainAndForce", 2, "clearPods", 2, "zeroOut", 1)}
 	col := newCollector(t, "C02", "history check; non-trivial = a scan inside a cool-down window for which the unlocked decision would have been an action, or a scan within 1s of the end of a cool-down; distinct by (offset class, would-be action, fleet)")
 	historyCheck(t, &historyOpts{prop: "C02", profile: p, col: col, classify: func(w *world.World, rec *world.ScanRecord) []string {
 		var keys []string
@@ -195,7 +195,7 @@ func TestC04(t *testing.T) {
 
 func TestC05History(t *testing.T) {
 	p := &world.Profile{Name: "scaleup", MinGroups: 1, MaxGroups: 1, Fleet: 1, Auto: 1, MaxInit: 10, SmallGraces: true, Steps: 20,
-		Weights: with(baseWeights(), "targetUtil", 14, "taintExt", 5, "cordon", 1, "restart", 2, "fleetPlan", 1, "drainAndForce", 1, "killNode", 1, "storm", 2)}
+		Weights: with(baseWeights(), "targetUtil", 14, "taintExt", 5, "cordon", 1, "restart", 2, "fleetPlan", 1, "drainAndForce", 1, "killNode", 2, "storm", 2, "asgEdit", 2, "zeroOut", 2)}
 	col := newCollector(t, "C05", "end-to-end: scans in the scale-up band with equal-size nodes; nodes brought into service = untaints + (requested target - real desired); non-trivial = strict scale-up band with need >= 1; distinct by (need, reused, requested, clamped, bound resource)")
 	historyCheck(t, &historyOpts{prop: "C05", profile: p, col: col, classify: func(w *world.World, rec *world.ScanRecord) []string {
 		var keys []string
@@ -215,7 +215,7 @@ func TestC05History(t *testing.T) {
 func TestC06(t *testing.T) {
 	p := &world.Profile{Name: "bands", MinGroups: 1, MaxGroups: 2, Fleet: 1, Auto: 1, Default: 1, Starve: 1, MaxAge: 1, MaxInit: 10, SmallGraces: true, Steps: 25,
 		FaultFocus: "cloud",
-		Weights: with(baseWeights(), "targetUtil", 16, "scan", 12, "taintExt", 2, "cordon", 1, "restart", 1, "schedule", 3, "asgEdit", 2, "fault", 2, "fleetPlan", 1, "resizeNode", 2, "launch", 3)}
+		Weights: with(baseWeights(), "targetUtil", 16, "scan", 12, "taintExt", 2, "cordon", 1, "restart", 1, "schedule", 3, "asgEdit", 2, "fault", 2, "fleetPlan", 1, "resizeNode", 2, "launch", 3, "starveAfterScaleUp", 2)}
 	col := newCollector(t, "C06", "history check; every unlocked, in-bounds, fault-free scan is judged against the exact-rational band; non-trivial = band with a non-empty expected action or an edge class; distinct by (band set, edge, clamp binds, tainted present, trigger)")
 	historyCheck(t, &historyOpts{prop: "C06", profile: p, col: col, classify: func(w *world.World, rec *world.ScanRecord) []string {
 		var keys []string
@@ -346,8 +346,8 @@ func temptation(w *world.World, rec *world.ScanRecord, gr *world.GroupRec, n *v1
 // ---------------------------------------------------------------- C09
 
 func TestC09(t *testing.T) {
-	p := &world.Profile{Name: "cordon", MinGroups: 1, MaxGroups: 2, Fleet: 0, Auto: 1, MaxInit: 8, SmallGraces: true, Steps: 30, Stale: true,
-		Weights: with(baseWeights(), "cordon", 8, "taintExt", 5, "advance", 8, "annotate", 1, "clearNode", 2)}
+	p := &world.Profile{Name: "cordon", FaultFocus: "node-writes", MinGroups: 1, MaxGroups: 2, Fleet: 0, Auto: 1, MaxInit: 8, SmallGraces: true, Steps: 30, Stale: true,
+		Weights: with(baseWeights(), "cordon", 8, "taintExt", 5, "advance", 8, "annotate", 1, "clearNode", 2, "fault", 2, "staleWindow", 2)}
 	col := newCollector(t, "C09", "history check; non-trivial = an acting (unlocked, in-bounds) scan that sees a cordoned node which would otherwise have been acted on: grace-expired, force-tainted and empty, tainted under a scale-up, or oldest untainted-looking under a scale-down; distinct by (temptation, action of the scan)")
 	historyCheck(t, &historyOpts{prop: "C09", profile: p, col: col, classify: func(w *world.World, rec *world.ScanRecord) []string {
 		var keys []string
@@ -385,7 +385,7 @@ func TestC09(t *testing.T) {
 
 func TestC10(t *testing.T) {
 	p := &world.Profile{Name: "annot", MinGroups: 1, MaxGroups: 2, Fleet: 0, Auto: 1, MaxInit: 8, SmallGraces: true, Steps: 30, Stale: true,
-		Weights: with(baseWeights(), "annotate", 8, "taintExt", 6, "advance", 9, "clearNode", 3, "cordon", 1, "asgEdit", 2, "asgDesired", 2)}
+		Weights: with(baseWeights(), "annotate", 8, "taintExt", 6, "advance", 9, "clearNode", 3, "cordon", 1, "asgEdit", 2, "asgDesired", 2, "staleWindow", 2, "fault", 1)}
 	col := newCollector(t, "C10", "history check; non-trivial = a reaping scan that sees an annotated node satisfying the removal condition, with or without other removable nodes; distinct by (temptation, value class, others removed, empty)")
 	historyCheck(t, &historyOpts{prop: "C10", profile: p, col: col, classify: func(w *world.World, rec *world.ScanRecord) []string {
 		var keys []string
@@ -476,7 +476,7 @@ func TestC11(t *testing.T) {
 
 func TestC12(t *testing.T) {
 	p := &world.Profile{Name: "isolation", MinGroups: 2, MaxGroups: 3, Dry: 1, Fleet: 1, Auto: 1, Default: 1, MaxInit: 6, SmallGraces: true, Steps: 30,
-		Weights: with(baseWeights(), "targetUtil", 12, "taintExt", 4, "fault", 2, "advance", 6, "addPods", 6, "drainAndForce", 1)}
+		Weights: with(baseWeights(), "targetUtil", 12, "taintExt", 4, "fault", 2, "advance", 6, "addPods", 6, "drainAndForce", 1, "noProvNode", 2, "asgEdit", 2)}
 	col := newCollector(t, "C12", "history check with 2-3 groups; non-trivial = a scan in which at least two groups act, or one group fails non-fatally before another is processed; distinct by (acting groups, failing group position, default group present)")
 	historyCheck(t, &historyOpts{prop: "C12", profile: p, col: col, classify: func(w *world.World, rec *world.ScanRecord) []string {
 		acting, failedBefore := 0, false
@@ -514,7 +514,7 @@ func TestC12(t *testing.T) {
 
 func TestC15History(t *testing.T) {
 	p := &world.Profile{Name: "taints", MinGroups: 1, MaxGroups: 2, Auto: 1, MaxInit: 8, SmallGraces: true, Steps: 30, Stale: true,
-		Weights: with(baseWeights(), "targetUtil", 14, "foreignTaint", 6, "taintExt", 2, "advance", 4, "annotate", 2)}
+		Weights: with(baseWeights(), "targetUtil", 14, "foreignTaint", 6, "taintExt", 2, "advance", 4, "annotate", 2, "staleWindow", 3, "fault", 1)}
 	col := newCollector(t, "C15", "history half: every accepted node update is compared with the stored object it replaced; non-trivial = an update on a node with >= 2 foreign taints, or a re-taint of a node tainted and untainted earlier, or a scale-down over already tainted nodes (stale view); distinct by (add/remove, foreign taints, stale no-op)")
 	tainted := map[string]int{}
 	historyCheck(t, &historyOpts{prop: "C15", profile: p, col: col, classify: func(w *world.World, rec *world.ScanRecord) []string {
@@ -555,7 +555,7 @@ func TestC15History(t *testing.T) {
 
 func TestC19History(t *testing.T) {
 	p := &world.Profile{Name: "removal", MinGroups: 1, MaxGroups: 2, Auto: 1, MaxInit: 8, SmallGraces: true, Steps: 30, Stale: true,
-		Weights: with(baseWeights(), "taintExt", 8, "advance", 9, "detach", 3, "fault", 3, "clearNode", 3, "asgEdit", 2, "asgDesired", 2, "gcNodes", 1, "drainAndForce", 2, "storm", 2, "forceBusy", 1)}
+		Weights: with(baseWeights(), "taintExt", 8, "advance", 9, "detach", 3, "fault", 3, "clearNode", 3, "asgEdit", 2, "asgDesired", 2, "gcNodes", 1, "drainAndForce", 2, "storm", 2, "forceBusy", 1, "staleWindow", 3)}
 	col := newCollector(t, "C19", "history half: ordering of cloud terminations and node deletions; non-trivial = a removal batch of >= 2 with a failure or foreign node inside it, two batches in one scan, a not-in-group exit, or an ASG-minimum refusal; distinct by those flags and sizes")
 	historyCheck(t, &historyOpts{prop: "C19", profile: p, col: col, classify: func(w *world.World, rec *world.ScanRecord) []string {
 		var keys []string
@@ -597,7 +597,7 @@ func stringIndex(s, sub string) int {
 
 func TestC20(t *testing.T) {
 	p := &world.Profile{Name: "chaos", DupTaints: true, MinGroups: 1, MaxGroups: 3, Dry: 1, Fleet: 1, Auto: 1, Default: 1, Starve: 1, MaxAge: 1, MaxInit: 6, SmallGraces: true, Steps: 30, Stale: true,
-		Weights: with(baseWeights(), "oddNode", 5, "oddPod", 5, "fault", 8, "taintExt", 6, "killNode", 2, "detach", 1, "asgEdit", 1, "fleetPlan", 2, "advance", 8, "gcNodes", 1)}
+		Weights: with(baseWeights(), "oddNode", 5, "oddPod", 5, "fault", 8, "taintExt", 6, "killNode", 2, "detach", 1, "asgEdit", 1, "fleetPlan", 2, "advance", 8, "gcNodes", 1, "staleWindow", 2, "zeroOut", 1)}
 	col := newCollector(t, "C20", "chaos histories: malformed nodes/pods, absurd taint values, API and cloud failures at drawn call indices; non-trivial = a scan in which an injected failure was hit, or an odd object was part of a processed in-bounds group; distinct by (fault kinds hit, odd kinds present, outcome)")
 	historyCheck(t, &historyOpts{prop: "C20", profile: p, col: col, classify: func(w *world.World, rec *world.ScanRecord) []string {
 		var keys []string
@@ -694,7 +694,7 @@ func TestC18History(t *testing.T) {
 
 func TestC14History(t *testing.T) {
 	p := &world.Profile{Name: "attribution", MinGroups: 1, MaxGroups: 3, Auto: 1, Default: 1, MaxInit: 5, SmallGraces: true, Steps: 25,
-		Weights: map[string]int{"scan": 12, "addPods": 10, "replacePod": 6, "retargetPod": 6, "finishPods": 3, "targetUtil": 3, "schedule": 2, "launch": 2, "cordon": 1, "taintExt": 1, "advance": 1, "restart": 1, "oddPod": 3}}
+		Weights: map[string]int{"scan": 12, "addPods": 10, "replacePod": 6, "retargetPod": 6, "finishPods": 3, "targetUtil": 3, "schedule": 2, "launch": 2, "cordon": 1, "taintExt": 1, "advance": 1, "restart": 1, "oddPod": 3, "noProvNode": 2}}
 	col := newCollector(t, "C14", "end-to-end: along histories in which pods come, go and are re-created under the same name with a different selector / affinity / owner / static annotation, the number of pods and nodes each scan saw (count gauges set from the real filtered listers, which live across scans) equals the documented attribution; non-trivial = a scan after a same-name replacement that changed the pod's group, or with >= 2 groups sharing a label key; distinct by situation digest")
 	historyCheck(t, &historyOpts{prop: "C14", profile: p, col: col, classify: func(w *world.World, rec *world.ScanRecord) []string {
 		replaced := 0
